@@ -21,7 +21,7 @@ Theorem bulkhead_full_event_only_on_refusal pos inst mw (inner : layer) c w :
   let setheld (w : world) (h : Z) :=
     set_insts w (w_breakers w) (w_limiters w) (upd inst (fun p => (fst p, h)) (w_bulkheads w)) (w_caches w) in
   (* an execution that arrives cancelled is turned away silently *)
-  (forall e, copy_err w c = Some e -> bulkhead_layer pos inst mw inner c w = (failure_result e, w))
+  (forall e, copy_err w c = Some e -> bulkhead_layer pos inst mw inner c w = (failure_result (cancel_error w c), w))
   (* admitted: this layer logs nothing *)
   /\ (copy_err w c = None -> held < cap ->
       kps (snd (bulkhead_layer pos inst mw inner c w)) = kps (snd (inner c (setheld w (held + 1)))))
@@ -34,7 +34,7 @@ Theorem bulkhead_full_event_only_on_refusal pos inst mw (inner : layer) c w :
       let i := fst (wait w mw (Some c)) in let w1 := snd (wait w mw (Some c)) in
       (i = true -> kps (snd (bulkhead_layer pos inst mw inner c w)) = kps w1
                    /\ fst (bulkhead_layer pos inst mw inner c w)
-                      = failure_result (match copy_err w1 c with Some e => e | None => EOther end))
+                      = failure_result (cancel_error w1 c))
       /\ (i = false -> fst (bulkhead_layer pos inst mw inner c w) = failure_result EFull
                        /\ kps (snd (bulkhead_layer pos inst mw inner c w)) = (KFull, pos) :: kps w1)).
 Proof.
@@ -117,3 +117,34 @@ Theorem timeout_event_iff_fired_step w s : (s < length (w_scopes w))%nat ->
   kps (fire_timeout w s) = (KTimeoutExceeded, sc_pos (get_scope w s)) :: kps w
   /\ sc_fired (get_scope (fire_timeout w s) s) = true.
 Proof. intros H. destruct (timeout_event_marks_fired w s H) as (rest & A & B & C). subst rest. split; assumption. Qed.
+
+(* ---- C08: a bulkhead that turns a cancelled execution away -- on arrival or out of its wait -- reports the error of the
+   cancellation result (the cause), and without running anything inside it ---- *)
+Lemma cancel_error_is_cause w c cr e : is_canceled w c = Some cr -> pr_err cr = Some e -> cancel_error w c = e.
+Proof. intros H He. unfold cancel_error. rewrite H, He. reflexivity. Qed.
+
+Theorem bulkhead_cancelled_reports_cause pos inst mw (inner inner' : layer) c w :
+  (forall cr e, is_canceled w c = Some cr -> pr_err cr = Some e ->
+     bulkhead_layer pos inst mw inner c w = (failure_result e, w))
+  /\ (copy_err w c = None -> fst (nth inst (w_bulkheads w) (0, 0)) <= snd (nth inst (w_bulkheads w) (0, 0)) -> mw <> 0 ->
+      fst (wait w mw (Some c)) = true ->
+      let w1 := snd (wait w mw (Some c)) in
+      bulkhead_layer pos inst mw inner c w = bulkhead_layer pos inst mw inner' c w
+      /\ forall cr e, is_canceled w1 c = Some cr -> pr_err cr = Some e ->
+           bulkhead_layer pos inst mw inner c w = (failure_result e, w1)).
+Proof.
+  unfold bulkhead_layer. destruct (nth inst (w_bulkheads w) (0, 0)) as [cap held]. cbn [fst snd]. split.
+  - intros cr e H He. pose proof H as H'. unfold is_canceled in H'. destruct (copy_err w c) as [e0|] eqn:Ec; [|discriminate].
+    rewrite (cancel_error_is_cause w c cr e H He). reflexivity.
+  - intros Hc Hge Hm Hi. rewrite Hc. destruct (held <? cap) eqn:E; [lia|]. destruct (mw =? 0) eqn:E0; [lia|].
+    destruct (wait w mw (Some c)) as [i w1]. cbn [fst snd] in *. subst i. split; [reflexivity|].
+    intros cr e H He. rewrite (cancel_error_is_cause w1 c cr e H He). reflexivity.
+Qed.
+
+(* finding F16 (repaired): what the bulkhead used to report -- the context's error -- is not the cause when the execution
+   was cancelled through its ExecutionResult *)
+Theorem bulkhead_reported_context_error_before_fix :
+  exists w c, copy_err w c = Some ECtxCanceled /\ cancel_error w c = EExecCanceled.
+Proof.
+  exists (fire_ext (fresh_world 0 None CKNone [] [] [] [] []) EExecCanceled), 0%nat. vm_compute. split; reflexivity.
+Qed.
